@@ -17,6 +17,14 @@
 (*          kind in {"iform", "hdc", "ds", "and", "or", "pdf", "cdf"}, arg "Ok" or the   *)
 (*          malformed option (at dimension pos)                                          *)
 (*   mal  : the malformations that were injected (for keys and CatalogueConsistent)      *)
+(*   ctx  : the CONTEXT in which they are injected - the rest of the call, which a        *)
+(*          validation must not depend on:                                                *)
+(*          fixed  : 0-based unconditional dimension whose carrier has EVERY parameter    *)
+(*                   fixed (f_<par> given for all), -1 = none                             *)
+(*          sample : "none" | "two" | "ndim"  a caller-supplied Monte-Carlo sample with   *)
+(*                   2 / n columns for the 2-D-only contours                              *)
+(*          fitted : FALSE = the operation is applied to the constructed, unfitted model  *)
+(*          opt    : "given" | "omitted"  the other optional arguments (HDC deltas)       *)
 (* Stages are numbered construct 1 < slice 2 < fit 3 < compute 4; 5 = a result exists.   *)
 EXTENDS Integers, Sequences, FiniteSets, Fix
 
@@ -29,13 +37,15 @@ Bases == << <<Absent>>,
             <<Absent, 0, 1, 2>>, <<Absent, 0, 0, 1>>, <<Absent, Absent, 1, 0>> >>
 
 OkOp(kind) == [kind |-> kind, arg |-> "Ok", pos |-> 0]
+DefaultCtx == [fixed |-> -1, sample |-> "none", fitted |-> TRUE, opt |-> "given"]
 BaseCase(b, op, fitkind) ==
     [b |-> b, n |-> Len(Bases[b]),
      dims |-> [i \in 1..Len(Bases[b]) |->
                  [dist |-> "Ok", cond |-> Bases[b][i],
                   params |-> IF Bases[b][i] = Absent THEN "Absent" ELSE "Exact",
                   extra |-> FALSE, slicer |-> "Ok"]],
-     fit |-> [kind |-> fitkind, pos |-> 0], data |-> "Ok", op |-> op, mal |-> <<>>]
+     fit |-> [kind |-> fitkind, pos |-> 0], data |-> "Ok", op |-> op, mal |-> <<>>,
+     ctx |-> DefaultCtx]
 
 ----------------------------------------------------------------------------
 (* the documented rules                                                        *)
@@ -69,7 +79,18 @@ Stage(c) ==
 
 (* the enumerated domain never contains 'parameters' without 'conditional_on' (the        *)
 (* property does not decide it; the code ignores the key)                                 *)
-InDomain(c) == \A i \in 1..c.n : c.dims[i].cond = Absent => c.dims[i].params = "Absent"
+FitAtNames == {"MissingMethod", "UnknownMethod", "UnknownWeights"}
+InDomain(c) ==
+    /\ \A i \in 1..c.n : c.dims[i].cond = Absent => c.dims[i].params = "Absent"
+    \* an all-fixed carrier only where the fit description of that (unconditional) dimension is
+    \* malformed: scipy itself refuses a well-formed fit of a distribution with nothing to estimate
+    /\ (c.ctx.fixed # -1 => /\ c.ctx.fixed \in 0..(c.n - 1)
+                             /\ c.dims[c.ctx.fixed + 1].cond = Absent
+                             /\ c.fit.kind \in FitAtNames /\ c.fit.pos = c.ctx.fixed)
+    \* an unfitted model only where everything up to the fit is well-formed
+    /\ (~c.ctx.fitted => c.fit.kind \in {"None", "Ok"} /\ c.data = "Ok")
+    /\ (c.ctx.sample # "none" => c.op.kind \in TwoDimOnly)
+    /\ (c.ctx.opt # "given" => c.op.kind = "hdc")
 
 Documented == {"ValueError", "TypeError", "RuntimeError", "NotImplementedError"}
 
@@ -177,7 +198,22 @@ Pairs(BS) ==
     UNION {{Pair(b, mm[1], mm[2]) :
               mm \in {x \in Malformations(b) \X Malformations(b) :
                          Key(x[1]) < Key(x[2]) /\ Field(x[1]) # Field(x[2])}} : b \in BS}
-AllCases(BS, PairBS) == GoodCases(BS) \cup Singles(BS) \cup Pairs(PairBS)
+(* the contexts in which a well-formed case / a single malformation is additionally run *)
+Ctx(fx, sm, ft, op) == [fixed |-> fx, sample |-> sm, fitted |-> ft, opt |-> op]
+Contexts(c) ==
+    {DefaultCtx}
+    \cup (IF Len(c.mal) = 1 /\ c.fit.kind \in FitAtNames /\ c.dims[c.fit.pos + 1].cond = Absent
+          THEN {Ctx(c.fit.pos, "none", TRUE, "given")} ELSE {})
+    \cup (IF c.op.kind \in TwoDimOnly /\ Len(c.mal) <= 1 /\ (c.mal = <<>> \/ Field(c.mal[1]) = <<"op", 0>>)
+          THEN {Ctx(-1, "two", TRUE, "given"), Ctx(-1, "ndim", TRUE, "given"), Ctx(-1, "two", FALSE, "given")}
+          ELSE {})
+    \cup (IF Len(c.mal) <= 1 /\ (c.mal = <<>> \/ Field(c.mal[1]) = <<"op", 0>>)
+          THEN {Ctx(-1, "none", FALSE, "given")} ELSE {})
+    \cup (IF Len(c.mal) = 1 /\ c.op.kind = "hdc" /\ c.op.arg \in {"HdcLimitsShort", "HdcLimitsLong",
+                                                                  "HdcLimitsNotPair", "HdcLimitsScalar"}
+          THEN {Ctx(-1, "none", TRUE, "omitted"), Ctx(-1, "none", FALSE, "omitted")} ELSE {})
+InContexts(S) == UNION {{[c EXCEPT !.ctx = x] : x \in Contexts(c)} : c \in S}
+AllCases(BS, PairBS) == InContexts(GoodCases(BS) \cup Singles(BS)) \cup Pairs(PairBS)
 
 ----------------------------------------------------------------------------
 (* the checks as the code performs them, in its order: first exception class per stage   *)
@@ -201,9 +237,17 @@ SliceExc(c) ==
       ELSE LET s == c.dims[SetMin(bad)].slicer IN
              CASE s = "UnknownRef" -> "ValueError" [] s = "RefWrongType" -> "TypeError"
                [] s = "TooFew" -> "RuntimeError"
-FitExc(c) == IF FitOk(c) THEN "none" ELSE "ValueError"
-ComputeExc(c) ==
+(* sc = named shortcut deviations: "allfixed" = fit returns before validating the method   *)
+(* when nothing is to be estimated; "sample" = the 2-D check of DirectSampling is only      *)
+(* made when the sample has to be drawn                                                     *)
+FitExc(c, sc) ==
+    IF FitOk(c) THEN "none"
+    ELSE IF sc = "allfixed" /\ c.data = "Ok" /\ c.fit.kind \in {"UnknownMethod", "UnknownWeights"}
+            /\ c.ctx.fixed = c.fit.pos THEN "none"
+    ELSE "ValueError"
+ComputeExc(c, sc) ==
     IF OpOk(c) THEN "none"
+    ELSE IF sc = "sample" /\ c.op.kind = "ds" /\ c.op.arg = "Ok" /\ c.ctx.sample = "two" THEN "none"
     ELSE IF c.op.kind \in TwoDimOnly THEN "NotImplementedError"
     ELSE IF c.op.kind = "iform" THEN "TypeError"
     ELSE "ValueError"
